@@ -385,6 +385,13 @@ def run(ctx):
                         root = x.ast.iter if x.kind == "for_iter" else x.ast
                         for y in ast.walk(root):
                             if isinstance(y, ast.Call):
+                                ftxt = src(y.func)
+                                if ftxt.startswith("logging.") or \
+                                        ftxt.rsplit(".", 1)[-1] in (
+                                            "debug", "info", "warning",
+                                            "error", "exception",
+                                            "critical", "log"):
+                                    continue     # diagnostics
                                 later_calls.append(src(y)[:50])
                 run.check(not later_calls,
                           "C13.R4", fn.qualname, src(n)[:70],
